@@ -44,12 +44,14 @@ func c02Body(c *run.Ctx) {
 	nontrivial := false
 	var M []string
 	var open map[string]int64
+	bought := map[string]int64{} // chips bought by a player since the current hand opened
 	var hooks sim.Hooks
 	var callsBefore int
 	hooks.Opened = func(s *sim.Sim, h *sim.Hand) {
 		t := h.Opened
 		M = h.M
 		open = map[string]int64{}
+		bought = map[string]int64{}
 		seatOf := map[string]int{}
 		dealt := []string{}
 		for _, p := range t.State.PlayerStates {
@@ -240,7 +242,7 @@ func c02Body(c *run.Ctx) {
 		BetweenPct:   70,
 		Mem:          sim.MemOpts{NewPlayer: 4, NewRandom: 1, JoinSitter: 2, Rebuy: 2, Leave: 4, KeepSitting: 35, MaxNewID: 14, TopupAnyone: true},
 		InHandOps:    10,
-		InHandMem:    sim.MemOpts{NewPlayer: 4, NewRandom: 1, JoinSitter: 3, Leave: 3, KeepSitting: 30, MaxNewID: 14},
+		InHandMem:    sim.MemOpts{NewPlayer: 4, NewRandom: 1, JoinSitter: 3, Rebuy: 2, Addon: 2, Leave: 3, KeepSitting: 30, MaxNewID: 14, TopupAnyone: true},
 		RearmOnLeave: true,
 	}
 	o.BeforeHand = func(s *sim.Sim, n int) bool { firstChecked = false; return true }
@@ -267,8 +269,11 @@ func c02Body(c *run.Ctx) {
 			if !was {
 				continue
 			}
-			if p.Bankroll != o+changed[p.PlayerID] {
-				c.Failf("C02.result-credit", "hand %d: %s has %d after the hand, bankroll at open %d + result of their entry %d (results by entry: %v)", h.N, p.PlayerID, p.Bankroll, o, changed[p.PlayerID], changed)
+			if p.Bankroll != o+bought[p.PlayerID]+changed[p.PlayerID] {
+				c.Failf("C02.result-credit", "hand %d: %s has %d after the hand, bankroll at open %d + chips bought during the hand %d + result of their entry %d (results by entry: %v)", h.N, p.PlayerID, p.Bankroll, o, bought[p.PlayerID], changed[p.PlayerID], changed)
+			}
+			if bought[p.PlayerID] != 0 && inList(M, p.PlayerID) {
+				s.Label("participant_bought_chips_during_hand")
 			}
 		}
 		if s.LabelSet["inhand_reserve"] || s.LabelSet["inhand_leave"] || s.LabelSet["inhand_join"] {
@@ -276,6 +281,10 @@ func c02Body(c *run.Ctx) {
 		}
 	}
 	onOp := func(s *sim.Sim, op *sim.OpRec) {
+		// chips bought while the hand runs come on top of the hand's result
+		if op.Err == nil && op.InHand && (op.Kind == "rebuy" || op.Kind == "redeem") {
+			bought[op.IDs[0]] += op.Chips
+		}
 		// a player who left is gone; a later namesake is a new player
 		after := map[string]bool{}
 		for _, p := range op.After.State.PlayerStates {
